@@ -30,8 +30,17 @@ func genViolation(r *PRNG, comp, inMsg bool) SItem {
 		switch r.Intn(13) {
 		case 0:
 			it.B0, it.Reason = fin|0x20|anyLegal, "rsv2"
+			if comp && r.Bool() {
+				it.B0 |= 0x40 // together with a legitimately usable RSV1
+				if r.Bool() {
+					it.B0 |= 0x10
+				}
+			}
 		case 1:
 			it.B0, it.Reason = fin|0x10|anyLegal, "rsv3"
+			if comp && r.Bool() {
+				it.B0 |= 0x40
+			}
 		case 2:
 			if comp {
 				continue
